@@ -84,6 +84,9 @@ def poisson(
 
         if abs(actual_accel - accel) < tol:
             break
+        if slope in (slope_min, slope_max):
+            # The interval cannot shrink any further in floating point.
+            break
         if actual_accel < accel:
             slope_min = slope
         else:
